@@ -25,6 +25,14 @@ def nontrivial(keys):
     return len(g) >= 2 and any(len(r) >= 2 for _, r in g)
 
 
+def _arg_identities(over, kw):
+    """the caller's argument containers, element by element (identity of every name / vector they hold)"""
+    out = []
+    for a in [over] + [kw[k] for k in sorted(kw) if k != "apply"]:
+        out.append((type(a).__name__, tuple(id(x) for x in a)) if isinstance(a, (list, tuple)) else id(a))
+    return out
+
+
 def check_aggregate(agg, h, kind, nkeys, form, keys, vals, menu_name):
     menu = gs.MENUS[menu_name]
     case = gs.describe(kind, nkeys, form, keys, vals, menu_name, METHOD)
@@ -43,10 +51,14 @@ def check_aggregate(agg, h, kind, nkeys, form, keys, vals, menu_name):
     groups, outs = gs.ref_aggregate(keys, vals, menu)
     agg.evals += 1
     agg.transitions += 1
+    arg_ids = _arg_identities(over, kw)
     try:
         res = t.aggregate(over=over, **kw)
     except Exception as e:
         agg.violation(V(site, "raises-" + type(e).__name__, case, None, repr(e)[:100], py))
+        return
+    if _arg_identities(over, kw) != arg_ids:
+        agg.violation(V(site, "call-changed-a-list-argument-of-the-caller", case, None, None, py))
         return
     agg.compared += 1
     cols = [list(c._underlying) for c in res._underlying]
